@@ -118,6 +118,7 @@ import numpy as np
 import sympy
 from scipy.linalg import pinv
 from sympy import Dummy, default_sort_key
+from sympy.core.function import AppliedUndef
 from sympy.utilities.lambdify import implemented_function, lambdify
 
 from nipy.algorithms.utils.matrices import full_rank, matrix_rank
@@ -775,6 +776,21 @@ class Formula:
             for j, _ in enumerate(d):
                 d[j] = d[j].subs(p, newp)
             newparams.append(newp)
+
+        # Implemented functions are looked up by name when the expression
+        # is lambdified, and two of them can share a name (the ns_%d of two
+        # natural splines): give each a name of its own first.
+        funcs = []
+        for expr in d:
+            for applied in sympy.sympify(expr).atoms(AppliedUndef):
+                func = applied.func
+                if hasattr(func, '_imp_') and func not in funcs:
+                    funcs.append(func)
+        for i, func in enumerate(funcs):
+            newfunc = implemented_function("__f%d__" % (i + random_offset),
+                                           func._imp_)
+            for j, _ in enumerate(d):
+                d[j] = d[j].subs(func, newfunc)
 
         # If there are any aliased functions, these need to be added
         # to the name space before sympy lambdifies the expression
